@@ -61,6 +61,30 @@ type Thread struct {
 	resumeTo     *Thread
 	pullConsumer *Thread
 	loads        []spinRec // atomic loads since this thread's last write-like visible operation
+	nsr          int       // thread number in the recorded schedule (creation order, iter.Pull coroutines not counted)
+}
+
+// SchedEv is one entry of the recorded schedule used by the native schedule replay: thread T performed a visible
+// operation of kind K (for "go": and created thread C).
+type SchedEv struct {
+	T int    `json:"t"`
+	K string `json:"k"`
+	C int    `json:"c,omitempty"`
+}
+
+// traceOp records that the current thread's visible operation of this kind takes effect now.
+func (in *Interp) traceOp(kind string) {
+	if !in.schedRec || in.cur == nil || in.cur.pull {
+		return
+	}
+	in.schedTrace = append(in.schedTrace, SchedEv{T: in.cur.nsr, K: kind})
+}
+
+func (in *Interp) traceGo(child *Thread) {
+	if !in.schedRec || in.cur == nil || in.cur.pull {
+		return
+	}
+	in.schedTrace = append(in.schedTrace, SchedEv{T: in.cur.nsr, K: "go", C: child.nsr})
 }
 
 type spinRec struct {
@@ -83,6 +107,8 @@ type raceReport struct {
 
 func (in *Interp) newThread(name string, fn Value, args []Value) *Thread {
 	t := &Thread{id: len(in.threads), name: name, wake: make(chan struct{}, 1), fn: fn, args: args}
+	t.nsr = in.nsrNext
+	in.nsrNext++
 	if in.cur != nil {
 		// goroutine start: child inherits parent's clock
 		in.tick(in.cur)
@@ -106,6 +132,7 @@ func (in *Interp) tick(t *Thread) {
 // spawn handles a `go` statement.
 func (in *Interp) spawn(fn Value, args []Value, pos token.Pos) {
 	t := in.newThread(fmt.Sprintf("go@%s", in.P.fset.Position(pos)), fn, args)
+	in.traceGo(t)
 	if !in.par {
 		t.parked = true
 		return
@@ -356,7 +383,7 @@ func (in *Interp) runPar(fns []Value) {
 	in.raceOn = in.run.job.B.Race
 	first := len(in.threads)
 	for i, f := range fns {
-		in.newThread(fmt.Sprintf("par%d", i), f, nil)
+		in.traceGo(in.newThread(fmt.Sprintf("par%d", i), f, nil))
 	}
 	// goroutines started before the parallel section become schedulable too, except those the harness declared
 	// daemons (vDaemons: e.g. periodicCleanUp waiting on a ticker that the manual clock never fires)
@@ -519,12 +546,14 @@ func (in *Interp) mutexLock(p *Ptr) {
 		in.blockOn(m, func() bool { return !m.locked && m.readers == 0 }, "mutex.lock")
 	}
 	m.locked = true
+	in.traceOp("mutex.lock")
 	in.hbAcquire(&m.vc)
 }
 
 func (in *Interp) mutexTryLock(p *Ptr) bool {
 	m := in.mutexOf(p)
 	in.visible("mutex.trylock")
+	in.traceOp("mutex.trylock")
 	if m.locked || m.readers > 0 {
 		return false
 	}
@@ -536,6 +565,7 @@ func (in *Interp) mutexTryLock(p *Ptr) bool {
 func (in *Interp) mutexUnlock(p *Ptr) {
 	m := in.mutexOf(p)
 	in.visible("mutex.unlock")
+	in.traceOp("mutex.unlock")
 	if !m.locked {
 		in.runtimePanic("sync: unlock of unlocked mutex")
 	}
